@@ -41,6 +41,12 @@ func failState(pkg *packages.Package, res *core.Result) {
 					case *ast.AssignStmt:
 						for _, l := range x.Lhs {
 							e := ast.Unparen(l)
+							// *recv = T{…} rewrites every field
+							if st, ok := e.(*ast.StarExpr); ok {
+								if id, ok := ast.Unparen(st.X).(*ast.Ident); ok && core.ObjOf(info, id) == recv {
+									found = true
+								}
+							}
 							for {
 								sel, ok := e.(*ast.SelectorExpr)
 								if !ok {
